@@ -18,11 +18,13 @@
            sum over all index tuples s of  generator_on_product(s) * (U^1[:, s_1, :] ... U^p[:, s_p, :])[0, r]
        i.e. Algorithm 3 evaluates the generator image  L Psi(x)^T U  that the explicit sums define, for every number of modes,
        mode sizes, ranks, state dimension and diffusion shape.
-   PARTIAL: the same statement for the reversible contraction (_contraction_step_dPsi_u) and the dense reduced-matrix
-   identity are decided by correspondence + side check (dense gEDMD); the HOSVD part is C18's. *)
+     - C19_contraction_reversible: the same for the reversible contraction (_contraction_step_dPsi_u): component 1 + x of the
+       carried vector is  sum over index tuples of (grad of the product)_x * core entries.
+   PARTIAL: the dense reduced-matrix identity (assembly of M from these vectors, V, S^-1 and the weights) is decided by
+   correspondence + side check (dense gEDMD); the HOSVD part is C18's. *)
 From Coq Require Import ZArith List Lia Arith.
 Import ListNotations.
-Require Import Ring Sums Matrix Core Chain Gedmd GedmdProof.
+Require Import Ring Sums Matrix Core Chain Gedmd GedmdProof GedmdRevProof.
 Open Scope cr_scope.
 
 Theorem C19_frob_sigma (R : cring) (d d2 : nat) (sg : nat -> nat -> R) (gv gj : nat -> R) :
@@ -53,6 +55,18 @@ Theorem C19_contraction (R : cring) (hlf : R -> R) (d d2 : nat) (b : nat -> R) (
   msum (nks modes) (fun ss => gen_on_product hlf d d2 b sg (select modes ss) * chain (ucores modes) ss (zeros (length modes)) 0%nat r').
 Proof. exact (contraction_is_sum hlf d d2 b sg modes fin r'). Qed.
 Print Assumptions C19_contraction.
+
+Theorem C19_contraction_reversible (R : cring) (d : nat) (modes : list (@cmode R)) fin x r' :
+  linked (ucores modes) fin -> rl_of (ucores modes) fin = 1%nat -> (x < d)%nat -> (r' < fin)%nat ->
+  dcontract dvunit modes (1 + x)%nat r' =
+  msum (nks modes) (fun ss => grad_prod (select modes ss) x * chain (ucores modes) ss (zeros (length modes)) 0%nat r').
+Proof. exact (dcontraction_is_sum d modes fin x r'). Qed.
+Print Assumptions C19_contraction_reversible.
+
+Theorem C19_first_step_reversible (R : cring) (jets : list (@fjet R)) (u : core R) c r' : rl u = 1%nat ->
+  dstep_first jets u c r' = dstep_mid (fun c0 _ => dvec dunit c0) jets u c r'.
+Proof. exact (dstep_first_unit jets u c r'). Qed.
+Print Assumptions C19_first_step_reversible.
 
 (* non-vacuity: three modes in dimension 2 with a 2 x 3 diffusion over Z *)
 Definition exj (s : Z) : @fjet Zring := @mkjet Zring (s + 1)%Z (fun x => (Z.of_nat x + s)%Z) (fun x y => (Z.of_nat (x + 2 * y) - s)%Z).
